@@ -14,7 +14,7 @@ LEVEL = "proof"
 EXTRA_PROPS = ["QuantemModel.Props.C07Ext"]     # growth round 6: angle sets outside ascending [0, 180], accumulation loop
 MANIFEST_ENTRY = {
     "category": "proof",
-    "text": "Lean 4 theorems (81, over the reals) about one executable model (generic numeric carrier, run at Float) of BOTH the torch port "
+    "text": "Lean 4 theorems (95 = 81 in Props/C07 + 14 in Props/C07Ext, over the reals) about one executable model (generic numeric carrier, run at Float) of BOTH the torch port "
             "(radon_torch, get_fourier_filter_torch, iradon_torch) and the scikit-image reference (radon circle mode, _get_fourier_filter, "
             "iradon linear): the sampling coordinates of the two Radon algorithms coincide for every size >= 2, angle and pixel (grid_sample "
             "normalisation round trip, rotation about N//2), hence every sinogram sample agrees; the six Fourier filters coincide bin by bin "
@@ -51,6 +51,22 @@ MANIFEST_ENTRY = {
             "the same call on another fresh module instance, and reports the whole history as the failing input. Every public function is "
             "also called with its documented defaults omitted and positionally (defaults / argument order), with device= and dtype= "
             "options, integer-dtype angle tensors, one-pixel detectors, output_size 0 and unknown filter spellings. "
+            "Growth round 6 (Props/C07Ext, Model/RadonExt2): ANGLE SETS OUTSIDE ASCENDING [0,180] — every sampling point, sinogram sample and "
+            "back-projection coordinate has period 360 degrees in the angle (any whole number of turns, negative angles), a half turn mirrors "
+            "the detector coordinate, the sinogram of a reversed / permuted / concatenated angle list is the reversed / permuted / concatenated "
+            "sinogram, the back-projection does not depend on the order in which (row, angle) pairs are visited (any permutation; list-level: "
+            "reversed rows and angles); THE ACCUMULATION LOOP — `recon = zeros; for angle: recon += proj` is the sum the model uses, and the "
+            "BATCHED call as the code computes it (one zero tensor [B,out,out], per angle one image per batch item from filtered[:, i, :] added "
+            "in place, mask and scaling on the batch) equals the per-sinogram model and scikit-image's iradon of every item "
+            "(iradon_batch_accumulate_refines, iradon_batch_loop_agrees_reference: batching of iradon_torch is now proved, no longer by "
+            "construction), run by the driver against the real batched call; THE INTEGERS of the padding steps (iradonGeom: diagonal, "
+            "pad_before / after, padded size, pad_y, output size) with their specification for every width (iradon_geometry_spec), compared "
+            "EXACTLY with what the real call hands to its FFT for 250 (quick) / 890 (thorough) detector widths up to 520; fixed input blocks "
+            "for the round-6 themes (detector lengths that are exact powers of two after circle padding x every non-ramp filter; batches of "
+            "5..33 items, 17..257 angles; angle sets with 180, beyond 180/360, negative, descending, unsorted, duplicated on non-symmetric "
+            "square and H != W images; one process asking one size under every filter name in every first-use order, identical calls "
+            "repeated, same size with other angles / batch / data; TomographyConv._sirt_run_epoch with 2..33 slices, 2-3 epochs, inline "
+            "alignment and smoothing kernel). "
             "The pre-fix conventions (reflected rotation, end-point cosine window, extrapolating "
             "interpolant) are kept as legacy definitions with their exact agreement domain and a counterexample each. The model is tied to "
             "the code on every run by Float correspondence with the real torch code and with the real scikit-image (1e-9), and the property "
@@ -66,10 +82,11 @@ MANIFEST_ENTRY = {
             "torch/scipy fft compute the DFT sum; IEEE rounding. Outside the checked domain: N=1 for radon (scikit-image itself fails), "
             "zero projections (A=0), integer-dtype images (torch's grid_sample has no integer kernel: radon_torch raises "
             "NotImplementedError; recorded in the evidence as the outcome of a rejected call, not judged).",
-    "technique": "Lean 4 proof (real-number identities, floor/clamp case analysis, sums, loop-to-map refinement, sessions with Unit state) + "
+    "technique": "Lean 4 proof (real-number identities, floor/clamp case analysis, sums, loop-to-map and accumulation-loop refinement, permutation "
+                 "invariance, sessions with Unit state) + exact integer internal-stage stream + "
                  "three-way model/torch/scikit-image correspondence incl. call histories with rejected calls on fresh module instances",
 }
-RULE = ("a case is one (function, size or shape, angle set, image-or-sinogram recipe, filter, circle, batch, call form) call evaluated on torch, "
+RULE = ("[round 6: + one detector width of the exact geometry stream; fixed-block cases count like random ones] a case is one (function, size or shape, angle set, image-or-sinogram recipe, filter, circle, batch, call form) call evaluated on torch, "
         "scikit-image and the model, or one history of 4-9 such calls (valid and rejected) in one process; distinct non-trivial = distinct "
         "(stream, size/shape, #angles, image kind, filter, circle, batch, layout, call form) with a non-zero input, resp. distinct sequence of "
         "call kinds of a history")
@@ -79,7 +96,12 @@ TRUSTED = ["torch.nn.functional.grid_sample(bilinear, zeros, align_corners=True)
            "scikit-image's radon/iradon/_get_fourier_filter as installed in /venv are the external oracle of the property",
            "executing radon.py a second time under another module name (importlib) yields an instance with its own, initial module-level "
            "state and otherwise the same behaviour (history stream: start state of every history, history-free reference of every call)"]
-ASSUMPTIONS = ["radon: square sizes 2..33 and shapes H x W with shorter side 2..24 and excess 0..9 (scikit-image's radon itself raises for N=1); iradon: "
+ASSUMPTIONS = ["angle sets outside [0,180] / unsorted / with duplicates are drawn in a fixed block only (8 sets x radon square odd/even, H>W, H<W, iradon "
+               "circle on/off); batch sizes above 3 and more than 8 angles likewise (5..33 items, 17..257 angles, small images)",
+               "TomographyConv._sirt_run_epoch is driven through a stub object (volume_obj with obj/_obj, dataset.tilt_angles, device); only the "
+               "returned forward projection is judged (= scikit-image's radon of the volume the epoch started from, every epoch); update "
+               "rule, inline alignment and smoothing are executed, not judged",
+               "radon: square sizes 2..33 and shapes H x W with shorter side 2..24 and excess 0..9 (scikit-image's radon itself raises for N=1); iradon: "
                "detector widths 1..48, at least one projection; image values are float32-representable (given as float32 or float64 tensors)",
                "histories: 4-9 calls, batch size and number of angles mostly shared inside a history, padded-size family 64 (85 %) or 128; the "
                "rejected calls are drawn from 12 kinds (unknown filter spelling, wrong number of angles, negative / fractional output_size, "
@@ -484,6 +506,21 @@ class Model:
         m = int(r["size"])
         return unbits(r["ok"], (m, m))
 
+    def iradon_batch(self, sinos, thetas, filt, circle, out=None):
+        """[B, A, N] -> [B, m, m] through the model of the batched accumulation loop (iradonTorchBatchLoop)"""
+        B, (A, N) = len(sinos), sinos[0].shape
+        r = self.ask({"op": "iradon_batch", "alg": "torch", "n": N, "a": A, "b": B, "sino": bits(np.stack(sinos)),
+                      "theta": None if thetas is None else bits(thetas), "filter": filt if filt is not None else "none",
+                      "circle": bool(circle), "out": out})
+        if "err" in r:
+            return r
+        m = int(r["size"])
+        return unbits(r["ok"], (B, m, m))
+
+    def geom(self, N, circle, out=None):
+        """the integers iradon_torch derives from the detector width (iradonGeom), exact"""
+        return self.ask({"op": "geom", "alg": "torch", "n": N, "circle": bool(circle), "out": out})
+
     def close(self):
         if self.drv is not None:
             self.drv.close()
@@ -869,6 +906,17 @@ def case_iradon(ctx, model, case, with_model=True):
                     ctx.disagree("iradonTorch", case, *views(tb[b], mt), note=f"maxdiff {dt:.3g}")
                 if ds > TOL64 * scale(ms):
                     ctx.disagree("iradonSk", case, *views(ref, ms), note=f"maxdiff {ds:.3g}")
+    # the batched call against the model of the batched accumulation loop (one zero tensor, recon += proj per angle across the batch)
+    if with_model and model.drv is not None and B >= 2 and case.get("batch_model", False) and isinstance(filt, (str, type(None))):
+        mb = model.iradon_batch([sn.astype(np.float64) for sn in sinos], thetas, filt, circle, out)
+        ctx.dist["iradon:batched-accumulation-loop-model-compared"] += 1
+        if isinstance(mb, dict):
+            ctx.disagree("iradonTorchBatchLoop", case, str(mb)[:80], "arrays")
+        else:
+            db = maxdiff(tb, mb)
+            ctx.stat_max("iradon batched model-vs-torch rel", db / scale(mb))
+            if db > TOL32 * scale(mb):
+                ctx.disagree("iradonTorchBatchLoop", case, *views(tb, mb), note=f"maxdiff {db:.3g}")
     if B >= 2:
         a, c = case.get("coef", [2.0, -0.5])
         comb = (np.float32(a) * sinos[0] + np.float32(c) * sinos[1]).astype(np.float32)
@@ -1211,7 +1259,7 @@ def fixed_g6():
         out.append({"kind": "radon", "N": 5 + (B % 2), "img": "random", "seeds": [700 + b for b in range(B)], "thetas": [0.0, 37.5, 90.0],
                     "masked": False, "_model": False})
         out.append({"kind": "iradon", "N": 6 + (B % 3), "A": 2, "sino": "random", "seeds": [800 + b for b in range(B)],
-                    "thetas": [21.5, 111.0], "filter": FILTERS[B % 5], "circle": True, "_model": False})
+                    "thetas": [21.5, 111.0], "filter": FILTERS[B % 5], "circle": True, "_model": B == 5, "batch_model": B == 5})
     for A in (17, 33, 65, 129, 181, 257):
         th = [float(np.float32((i * 180.0 / A + 0.25) % 180.0)) for i in range(A)]
         out.append({"kind": "radon", "N": 4 + (A % 2), "img": "random", "seeds": [900 + A], "thetas": th, "masked": False, "_model": False})
@@ -1270,6 +1318,127 @@ def fixed_g6():
             {"kind": "radon-rect", "H": N, "W": N + 3, "img": "random", "seed": 1811, "thetas": [20.0, 110.0]},
             ra(N, 1800, (20.0, 110.0))]})
     return out
+
+
+def observe_fft_input(N, circle):
+    """what iradon_torch feeds to its FFT for an all-ones sinogram of width N (public torch.fft entry points wrapped for the
+    duration of one call): (P, first index of the data, length of the tensor handed over) — or None when the call does not
+    go through torch.fft.fft / rfft with a recognisable 0/1 tensor (then the stream says so and decides nothing)"""
+    torch = _torch()
+    import torch.fft as tfft
+    rec = []
+    originals = {nm: getattr(tfft, nm) for nm in ("fft", "rfft")}
+
+    def wrap(orig):
+        def w(x, *a, **k):
+            try:
+                n = k.get("n", a[0] if len(a) > 0 else None)
+                dim = k.get("dim", a[1] if len(a) > 1 else -1)
+                rec.append((x.detach().clone(), n, dim))
+            except Exception:  # noqa
+                pass
+            return orig(x, *a, **k)
+        return w
+    for nm, orig in originals.items():
+        setattr(tfft, nm, wrap(orig))
+    try:
+        res = radon_mod().iradon_torch(torch.ones(1, N), theta=torch.tensor([37.0]), output_size=1, filter_name="hann", circle=circle)
+    finally:
+        for nm, orig in originals.items():
+            setattr(tfft, nm, orig)
+    for x, n, dim in rec:
+        try:
+            if not isinstance(dim, int) or x.is_complex():
+                continue
+            row = x.movedim(dim, -1).reshape(-1, x.shape[dim])[0].double()
+            ones = (row == 1.0)
+            if int(ones.sum()) != N or not bool(((row == 0.0) | ones).all()):
+                continue
+            first = int(torch.nonzero(ones)[0])
+            if not bool(ones[first:first + N].all()):
+                continue
+            L = int(row.shape[0])
+            return {"P": int(n) if n is not None else L, "first": first, "len": L, "shape": list(res.shape)}
+        except Exception:  # noqa
+            continue
+    return None
+
+
+def sk_padded_size(D):
+    return max(64, int(2 ** np.ceil(np.log2(2 * D))))       # skimage.transform.iradon, verbatim
+
+
+def geometry_one(ctx, model, N, circle):
+    """one width: None = not observable, False = equal, True = different (reported)"""
+    try:
+        obs = observe_fft_input(N, circle)
+    except Exception as e:  # noqa
+        ctx.dist[f"geometry:call-raised-{err_name(e)}"] += 1
+        obs = None
+    if obs is None:
+        return None
+    g = model.geom(N, circle, 1)
+    ctx.count()
+    want = {"P": int(g["P"]), "first": int(g["pad_before"])}
+    got = {"P": obs["P"], "first": obs["first"]}
+    if obs["len"] != obs["P"] and obs["len"] != N:      # the tensor handed over is the diagonal-padded one: D is visible too
+        want["D"], got["D"] = int(g["D"]), obs["len"]
+    if obs["shape"] != [1, 1]:
+        want["shape"], got["shape"] = [1, 1], obs["shape"]
+    if want != got:
+        ctx.disagree("iradon-geometry", {"kind": "geometry", "N": N, "circle": circle}, want, got,
+                     note="integers of the padding steps: model (iradonGeom) vs what the call hands to its FFT")
+        return True
+    return False
+
+
+def run_geometry(ctx, model):
+    """EXACT internal-stage stream, fixed for every seed and tier: for every detector width 1..370 (circle mode) and 1..520
+    (circle=False) the integers the model derives (iradonGeom: diagonal, pad_before, padded size) against what the real call
+    hands to its FFT, and the default output size against the shape returned.  A difference is a correspondence disagreement;
+    it becomes a predicate failure only through a reconstruction at that width that differs from scikit-image's."""
+    if model.drv is None:
+        return
+    bad, unseen, n = [], 0, 0
+    full = ctx.n(0, 1) > 0          # thorough tier: every width; quick tier: a fixed subset (every width up to 80, then every
+    #                                 width whose (diagonal-padded) length is within 1 of a power of two or of 1.5 x one, and every 11th)
+
+    def selected(N, circle):
+        if full or N <= 80 or N % 11 == 0:
+            return True
+        D = int(math.ceil(math.sqrt(2) * N)) if circle else N
+        return any(abs(D - q) <= 1 for q in (96, 128, 192, 256, 384, 512))
+    for circle, top in ((True, 370), (False, 520)):
+        for N in range(1, top + 1):
+            if not selected(N, circle):
+                continue
+            r = geometry_one(ctx, model, N, circle)
+            if r is None:
+                unseen += 1
+                continue
+            n += 1
+            if r:
+                bad.append((N, circle))
+        for N in range(1, 49):           # default output size (both libraries: N, resp. floor(sqrt(N^2/2)))
+            g = model.geom(N, circle, None)
+            try:
+                shp = list(t_iradon(np.ones((1, N), dtype=np.float32), [37.0], None, circle).shape)
+            except Exception as e:  # noqa
+                shp = err_name(e)
+            ctx.count()
+            if shp != [int(g["out"])] * 2:
+                ctx.disagree("iradon-geometry-output-size", {"kind": "geometry", "N": N, "circle": circle}, [int(g["out"])] * 2, shp)
+    ctx.mark(("geometry", n > 0))
+    ctx.dist["geometry:widths-compared-exactly"] += n
+    if unseen:
+        ctx.dist["geometry:widths-where-the-FFT-input-was-not-observable (nothing decided)"] += unseen
+    ctx.extra["geometry stream"] = {"widths compared": n, "not observable": unseen, "differences": len(bad)}
+    # a difference in the integers must show in a reconstruction to be a violation of the property
+    for N, circle in bad[:3]:
+        th = _clear_thetas(N, circle, ([21.5, 111.0], [33.0, 101.5], [17.0, 81.0], [36.5, 98.0])) or [21.5, 111.0]
+        for filt in ("hann", None):
+            dispatch(ctx, model, {"kind": "iradon", "N": N, "A": 2, "sino": "random", "seeds": [4242], "thetas": th, "filter": filt,
+                                  "circle": circle}, with_model=False)
 
 
 def gen_history(ctx, rng):
@@ -1372,7 +1541,7 @@ def gen_iradon_case(ctx, rng, model_cost=True, force=None):
             "layout": rng.weighted([("contig", 5), ("transposed", 2), ("permuted", 1), ("strided", 1), ("f64", 1), ("f64-transposed", 1)]),
             "theta_layout": rng.weighted([("f32", 6), ("f64", 1), ("strided", 1), ("i64", 1)]), "keepdim": rng.chance(0.5),
             "form": rng.weighted([("kw", 3), ("min", 2), ("pos", 1)]), "device": rng.weighted([(None, 4), ("cpu", 1), ("torch.device", 1)]),
-            "via_e": rng.chance(0.5),
+            "via_e": rng.chance(0.5), "batch_model": rng.chance(0.6),
             "coef": [float(rng.choice([2.0, -1.0, 0.5, 3.0])), float(rng.choice([-0.5, 1.0, 4.0, -2.0]))]}
 
 
@@ -1416,6 +1585,9 @@ def dispatch(ctx, model, case, with_model=True):
         case_radon_rect(ctx, model, case, with_model)
     elif k == "history":
         case_history(ctx, model, case)
+    elif k == "geometry":
+        if model.drv is not None:
+            geometry_one(ctx, model, case["N"], case["circle"])
     else:
         raise ValueError(k)
 
@@ -1568,6 +1740,8 @@ def run(ctx):
             for hcase in fixed_histories():      # enumerated class, independent of seed and tier
                 ctx.dist["history:fixed-block"] += 1
                 dispatch(ctx, model, hcase)
+        if not ctx.search_mode:
+            run_geometry(ctx, model)
         # --- growth round 6: fixed blocks (thresholds / exact multiples, sign / orientation of the angle set, repeated and re-keyed calls)
         if not ctx.search_mode:
             for gcase in fixed_g6():
